@@ -10,7 +10,10 @@ package props
 
 import (
 	"fmt"
+	"math"
 	"sort"
+
+	"github.com/hneemann/parser2/value"
 
 	"verif/bridge"
 	"verif/gen"
@@ -79,6 +82,10 @@ func (c07) Run(c *wk.Case) {
 	if why, ok := c07Unmodelled[full]; ok {
 		c.Count("unmodelled_"+full, 1)
 		_ = why
+		return
+	}
+	if full == "list.movingWindow" && (c.Index/int64(len(entries)))%2 == 1 {
+		c07MovingWindowUnsorted(c, vl)
 		return
 	}
 	g := gen.NewPG(c.Rng, c07dials)
@@ -199,5 +206,97 @@ func (c07) Run(c *wk.Case) {
 		if c.Index%997 == 0 {
 			c.Sample(map[string]any{"builtin": full, "mode": mode, "program": src})
 		}
+	}
+}
+
+// c07MovingWindowUnsorted: movingWindow over callback values in ANY order (reversed, zig-zag, random). The
+// description does not determine the windows completely there (the reference model leaves such inputs open),
+// but it does say what every reading shares: one window per item, each a contiguous run of the list that ends
+// with that item, windows move forward only, and the items of a window are close to each other - so the oldest
+// and the newest item of a window differ by at most 1 in the callback's value. Judged on the real result alone.
+func c07MovingWindowUnsorted(c *wk.Case, vl *vlang) {
+	n := c.Rng.IntN(9)
+	k := []float64{1, 0.75, 0.3, 1.5, -1, -0.5}[c.Rng.IntN(6)]
+	vals := make([]float64, n)
+	items := make([]value.Value, n)
+	shape := c.Rng.IntN(4)
+	for i := range vals {
+		var v float64
+		switch shape {
+		case 0: // descending
+			v = float64(2*(n-i)) + float64(c.Rng.IntN(3))
+		case 1: // zig-zag
+			v = float64((i%2)*5) + float64(c.Rng.IntN(2))
+		case 2: // random small (many close neighbours)
+			v = float64(c.Rng.IntN(9)) / 2
+		default: // random wide
+			v = float64(c.Rng.IntN(41) - 20)
+		}
+		vals[i] = v
+		if v == math.Trunc(v) && c.Rng.IntN(2) == 0 {
+			items[i] = value.Int(int(v))
+		} else {
+			items[i] = value.Float(v)
+		}
+	}
+	src := fmt.Sprintf("l.movingWindow(x->x*%v).map(w->[w.size(), w.first(), w.last()])", k)
+	if k < 0 {
+		src = fmt.Sprintf("l.movingWindow(x->x*(%v)).map(w->[w.size(), w.first(), w.last()])", k)
+	}
+	c.Logf("[list.movingWindow unsorted] %s with %v", src, vals)
+	for _, gg := range []*value.FunctionGenerator{vl.opt, vl.noopt} {
+		f, err, pan := generate(gg, src, []string{"l"})
+		if err != nil || pan != nil {
+			c.Violation("builtin:list.movingWindow", fmt.Sprintf("%q: Generate fails: %v %v", src, err, pan), map[string]any{"src": src})
+			return
+		}
+		got := evalReal(f, []value.Value{value.NewList(items...)})
+		bad := func(msg string) {
+			c.Violation("builtin:list.movingWindow", fmt.Sprintf("[list.movingWindow unsorted] %q with l=%v: %s (result %s, err %v)", src, vals, msg, bridge.Describe(got.Val), got.Err),
+				map[string]any{"builtin": "list.movingWindow", "mode": "unsorted", "src": src, "values": vals, "why": msg})
+		}
+		if got.Err != nil || got.Panic != nil {
+			bad("fails on a list of numbers")
+			return
+		}
+		ws, ok := listOf(got.Val)
+		if !ok || len(ws) != n {
+			bad(fmt.Sprintf("%d windows for %d items", len(ws), n))
+			return
+		}
+		prevStart := 0
+		for i, w := range ws {
+			e, ok := listOf(w)
+			if !ok || len(e) != 3 {
+				bad("window summary malformed")
+				return
+			}
+			sz, ok1 := e[0].ToFloat()
+			fi, ok2 := e[1].ToFloat()
+			la, ok3 := e[2].ToFloat()
+			if !ok1 || !ok2 || !ok3 {
+				bad("window summary malformed")
+				return
+			}
+			size := int(sz)
+			start := i - size + 1
+			if size < 1 || start < 0 || la != vals[i] || fi != vals[start] {
+				bad(fmt.Sprintf("window %d is not a run of the list ending with item %d", i, i))
+				return
+			}
+			if start < prevStart {
+				bad(fmt.Sprintf("window %d starts at %d, before the start %d of the window before", i, start, prevStart))
+				return
+			}
+			prevStart = start
+			if math.Abs(fi*k-la*k) > 1+1e-9 {
+				bad(fmt.Sprintf("window %d holds items whose callback values %v and %v differ by more than 1", i, fi*k, la*k))
+				return
+			}
+		}
+	}
+	c.Count("movingwindow_unsorted_checked", 1)
+	if n >= 2 {
+		c.NonTrivial(wk.Hash64(src, fmt.Sprint(vals)))
 	}
 }
